@@ -10,10 +10,10 @@ for l in open(os.path.join(HERE, 'properties.jsonl')):
 # id -> (technique, level text, level note)
 CHECKS = {
  'C01': ('Hypothesis-generated models vs brute-force joint oracle; metamorphic relations (elimination order, constant shift, message schedule)',
-         'Generated-input search: thousands of random structures/potentials/totals/orders/schedules per run, every clique marginal compared with an independent brute-force joint. Finds counterexamples, does not prove absence.',
+         'Generated-input search: thousands of random structures/potentials/totals/orders/schedules per run, every clique marginal compared with an independent brute-force joint, again after a later call and after an in-place update of the same parameter object. Finds counterexamples, does not prove absence.',
          'Trusts numpy and the brute-force oracle in pbt/oracles.py; joint size capped at 4096 (quick) / 20000 (thorough) cells.'),
  'C12': ('exhaustive enumeration (all labelled graphs on <=5 attributes x all elimination orders) + Hypothesis-generated larger clique sets, judged by a junction-tree validity predicate',
-         'The n<=5 sub-space is enumerated completely on every quick run (exhaustive for that sub-space: ~130k trees); larger clique sets, order modes None/int and size-1 attributes are sampled with Hypothesis. Thorough adds 3-clique masks and all labelled 6-node graphs x 720 orders under a time cap.',
+         'The n<=5 sub-space is enumerated completely on every quick run (exhaustive for that sub-space: ~130k trees); larger clique sets, order modes None/int and size-1 attributes are sampled with Hypothesis. One generated case in twelve has 40-80 attributes. Thorough adds 3-clique masks and all labelled 6-node graphs x 720 orders under a time cap.',
          'Trusts the validity predicate in pbt/c12.py (pure-Python sets) and networkx only as used by the code under test.'),
  'C14': ('Hypothesis-generated factor pairs and one of ~45 operations vs a naive per-assignment reference (itertools.product)',
          'Generated-input search over operand attribute orders/overlaps/sizes (incl. size 1), -inf patterns and all listed operations incl. in-place/out= variants and CliqueVector arithmetic; result compared cell by cell by attribute name.',
@@ -28,7 +28,7 @@ CHECKS = {
          'Generated-input search over measurement sets (duplicates, nested, hub-shaped overlaps), noise scales, query spellings, metrics and directions; four executable oracles per case.',
          'Observation points _setup/_marginal_loss/_lipschitz are the ones named in the property; projections over a single cell are excluded from the Lipschitz clause (eigsh k=1 needs >=2 cells).'),
  'C09': ('Hypothesis-generated measurement sets from query families with known row-space membership vs dense pinv reference (differential), all four copies of the estimator',
-         'Generated-input search over query families/sizes 1-64/spellings/noise scales; model.total compared with an independent inverse-variance reference, noise-free clause total==N, given totals honoured exactly.',
+         'Generated-input search over query families/sizes 1-64/spellings/noise scales, engines used before with another total, caller-built marginal-oracle objects; model.total compared with an independent inverse-variance reference, noise-free clause total==N, given totals honoured exactly.',
          'mixture_inference.estimate_total is AST-extracted (jax absent); singular values of generated dense queries kept in [0.5,5] so row-space membership is unambiguous.'),
  'C08': ('Hypothesis-generated estimation problems (3 solvers, iteration counts incl. 1, early exits, structural zeros) vs brute-force joint of the returned parameters; all-subsets query sweep',
          'Generated-input search: the returned model is queried on every attribute subset (drawn orders) and each answer, the stored marginals and the data vector are compared with the joint of the stored potentials; finite / non-negative / sums-to-total asserted explicitly.',
@@ -58,7 +58,7 @@ CHECKS = {
          'Generated-input search; conditional on the convergence the statement presupposes (primal feasibility <= 1e-9*total within 5000 sweeps, ~99% of cases on the current tree; a run that is stationary but inconsistent, or that converges only when its cliques are re-listed alphabetically, is a violation; the rest is inconclusive).',
          'Trusts the dual solver only when its gradient norm is < 1e-8 (otherwise inconclusive). Potentials are finite (a constant shift of one region up to 1e4 included); -inf potentials reach this oracle only through C18 (see F25).'),
  'C19': ('Hypothesis-generated public datasets / measurement sets / totals vs validity predicate on the weights, C09 reference total, and loss recomputed from weighted contingency tables (metamorphic: never worse than uniform weights)',
-         'Generated-input search with a fresh PublicInference per case; includes degenerate shapes (single-cell projections, exact-fit starts, conflicting answers, a clique measured twice with different noise) that drive the line search to its corner cases.',
+         'Generated-input search; fresh PublicInference objects are compared with uniform weights, engines used before (other answers / answers that collapse most weights) with their starting point, which is what the line search guarantees; includes degenerate shapes (single-cell projections, exact-fit starts, conflicting answers, a clique measured twice with different noise) that drive the line search to its corner cases.',
          'Loss comparison tolerance 1e-9 relative + 1e-9 x loss of the all-zero table; estimated totals compared with the pinv reference at 1e-6.'),
  'C18': ('Hypothesis-generated measurement sets x marginal oracle x iteration counts: crash-freedom and validity predicate on the measured clique tables, loss vs uniform start, feasibility of the convex oracle; differential against the certified simplex-QP optimum on disjoint clique families',
          'Generated-input search; every exception raised by the estimator is a violation (inputs stay inside the documented interface: explicit Q, tuple projections); exactness clause with iteration escalation and plateau rule.',
@@ -68,7 +68,7 @@ CHECKS = {
          'hdmm Identity replaced by scipy.sparse.eye; inference iterations capped at 25 inside the mechanisms; selections charged with the bounded-range bound eta^2/8. F12 (AIM with too few rounds) is a listed known finding.'),
  'C06': ('Hypothesis-generated mechanism runs; coupled replay (forced identical releases and selections) on a neighbouring dataset; event-sequence and output equality; domain conformance predicate',
          'Generated-input search: any dependence of control flow, noise scales, sampling probabilities or output on the private data other than through the recorded primitives shows up as a difference between the two coupled executions.',
-         'Same test doubles as C05; numpy global RNG state is part of the case; AdaGrid thresholds are aimed at actual one-way counts in half of its cases.'),
+         'Same test doubles as C05; numpy global RNG state is part of the case; AdaGrid thresholds are aimed at actual one-way counts in half of its cases; a quarter of the datasets carry record weights in (0,1]; Gaussian MWEM with delta=0 must refuse before drawing anything.'),
 }
 NOT_YET = 'check not built yet (work in progress in this session); see DESIGN.md for the planned check'
 
